@@ -376,14 +376,24 @@ func c12r3(p *Prog, r *Reporter) {
 	ev := p.Pkgs["event"]
 	// documented positional order of the arguments of subscription()
 	want := []string{"EntityCreated", "EntityRemoved", "ComponentAdded", "ComponentRemoved", "RelationChanged", "TargetChanged"}
-	var bools []*ssa.Parameter
+	// the flags: the bool parameters in order, or the bool fields (in order) of a single options-struct parameter
+	var flags []string
 	for _, pr := range fn.Params {
 		if bt, ok := pr.Type().Underlying().(*types.Basic); ok && bt.Kind() == types.Bool {
-			bools = append(bools, pr)
+			flags = append(flags, pr.Name())
 		}
 	}
-	if len(bools) != len(want) {
-		r.Bad("ecs.subscription", "parameter list", p.FnPos(fn), fmt.Sprintf("%d bool parameters, the documented list has %d", len(bools), len(want)))
+	if len(flags) == 0 && len(fn.Params) == 1 {
+		if st, ok := fn.Params[0].Type().Underlying().(*types.Struct); ok {
+			for i := 0; i < st.NumFields(); i++ {
+				if bt, ok := st.Field(i).Type().Underlying().(*types.Basic); ok && bt.Kind() == types.Bool {
+					flags = append(flags, fn.Params[0].Name()+"."+fieldName(fn.Params[0].Type(), i))
+				}
+			}
+		}
+	}
+	if len(flags) != len(want) {
+		r.Bad("ecs.subscription", "parameter list", p.FnPos(fn), fmt.Sprintf("%d bool flags, the documented list has %d", len(flags), len(want)))
 		return
 	}
 	// which constants are OR-ed in under which parameter's true edge; every OR result must reach the return value
@@ -422,7 +432,7 @@ func c12r3(p *Prog, r *Reporter) {
 		}
 		return walk(v)
 	}
-	for i, pr := range bools {
+	for i, flag := range flags {
 		var consts []string
 		for _, b := range fn.Blocks {
 			for _, ins := range b.Instrs {
@@ -439,12 +449,12 @@ func c12r3(p *Prog, r *Reporter) {
 				if c == nil || c.Value == nil {
 					continue
 				}
-				if !factBefore(fn, bo, pr.Name()+"=true") {
+				if !factBefore(fn, bo, flag+"=true") {
 					continue
 				}
 				other := false
-				for _, q := range bools {
-					if q != pr && factBefore(fn, bo, q.Name()+"=true") {
+				for _, q := range flags {
+					if q != flag && factBefore(fn, bo, q+"=true") {
 						other = true
 					}
 				}
@@ -781,6 +791,13 @@ func c12r4(p *Prog, r *Reporter) {
 				}
 			}
 		}
+		if !(okc && n >= 2) {
+			// or through a helper h(&components, hasComponents) that returns its pointer argument exactly where its flag
+			// argument is true and nil exactly where it is false
+			if hk, hn := componentsViaHelper(p, fn); hn > 0 {
+				okc, n = hk, 2
+			}
+		}
 		r.Check(okc && n >= 2, name, "nil iff unrestricted", p.FnPos(fn), "returns &components exactly where hasComponents is true, nil exactly where it is false")
 		fs := p.Fn("listener.(*" + tn + ").Subscriptions")
 		if fs != nil {
@@ -1085,4 +1102,60 @@ func flowsToField(v ssa.Value, field string, seen map[ssa.Value]bool) bool {
 		}
 	}
 	return false
+}
+
+// componentsViaHelper: fn's single return is h(..&x.components.., ..x.hasComponents..) and h returns its pointer
+// parameter exactly under flag=true and nil exactly under flag=false. Returns (ok, number of helper returns).
+func componentsViaHelper(p *Prog, fn *ssa.Function) (bool, int) {
+	var call *ssa.Call
+	for _, b := range fn.Blocks {
+		if ret, ok := b.Instrs[len(b.Instrs)-1].(*ssa.Return); ok && reachable(b) {
+			c := callOf(ret.Results[0])
+			if c == nil || call != nil {
+				return false, 0
+			}
+			call = c
+		}
+	}
+	if call == nil {
+		return false, 0
+	}
+	h := call.Common().StaticCallee()
+	if h == nil || h.Blocks == nil || !p.isArche(h) {
+		return false, 0
+	}
+	ptrIdx, flagIdx := -1, -1
+	for i, a := range call.Common().Args {
+		if fa, ok := a.(*ssa.FieldAddr); ok && fieldName(fa.X.Type(), fa.Field) == "components" {
+			ptrIdx = i
+		}
+		if _, f, _, ok := loadedField(a); ok && f == "hasComponents" {
+			flagIdx = i
+		}
+	}
+	if ptrIdx < 0 || flagIdx < 0 || ptrIdx >= len(h.Params) || flagIdx >= len(h.Params) {
+		return false, 0
+	}
+	flag := h.Params[flagIdx].Name()
+	okc, n := true, 0
+	for _, b := range h.Blocks {
+		ret, ok := b.Instrs[len(b.Instrs)-1].(*ssa.Return)
+		if !ok || !reachable(b) {
+			continue
+		}
+		n++
+		switch {
+		case isNilConst(ret.Results[0]):
+			if !factBefore(h, ret, flag+"=false") {
+				okc = false
+			}
+		case ret.Results[0] == ssa.Value(h.Params[ptrIdx]):
+			if !factBefore(h, ret, flag+"=true") {
+				okc = false
+			}
+		default:
+			okc = false
+		}
+	}
+	return okc && n >= 2, n
 }
